@@ -24,14 +24,14 @@ theorem regKey_of_noninsert {o : Op} (h : o.insert = false) : o.regKey = o.key :
 theorem regKey_of_insert {o : Op} (h : o.insert = true) : o.regKey = .elem o.id := by
   simp [Op.regKey, h]
 
-theorem mapSeg_noninsert {ops : List Op} (hw : WF ops) {obj : ObjId} {x : Op} (hx : x ∈ mapSeg ops obj) :
+theorem mapSeg_noninsert {ops : List Op} (hw : OpsWF ops) {obj : ObjId} {x : Op} (hx : x ∈ mapSeg ops obj) :
     x.insert = false := by
   obtain ⟨hxo, _, _, hm⟩ := mem_mapSeg.mp hx
   cases hi : x.insert
   · rfl
   · rw [(hw.insSeq x hxo hi).1] at hm; cases hm
 
-theorem seqSeg_not_map {ops : List Op} (hw : WF ops) {obj : ObjId} {x : Op} (hx : x ∈ seqSeg ops obj) :
+theorem seqSeg_not_map {ops : List Op} (hw : OpsWF ops) {obj : ObjId} {x : Op} (hx : x ∈ seqSeg ops obj) :
     x.key.isMap = false := by
   rcases mem_seqSeg.mp hx with h | ⟨e, _, h⟩
   · exact (hw.insSeq x (mem_rgaFrom h).1 (mem_rgaFrom h).2.2).1
@@ -44,7 +44,7 @@ theorem seqSeg_regKey {ops : List Op} {obj : ObjId} {x : Op} (hx : x ∈ seqSeg 
   · refine ⟨e, he, ?_, .inr h⟩
     rw [regKey_of_noninsert (mem_updatesOf.mp h).2.2.2.1, (mem_updatesOf.mp h).2.2.2.2]
 
-theorem mapSeg_regSorted {ops : List Op} (hw : WF ops) (obj : ObjId) : RegSorted (mapSeg ops obj) := by
+theorem mapSeg_regSorted {ops : List Op} (hw : OpsWF ops) (obj : ObjId) : RegSorted (mapSeg ops obj) := by
   unfold RegSorted
   have hk : KISorted (mapSeg ops obj) := sortKI_sorted _
   have hn : (mapSeg ops obj).Nodup :=
@@ -79,7 +79,7 @@ theorem mapSeg_keySorted (ops : List Op) (obj : ObjId) : KeySorted (mapSeg ops o
   simp only [Bool.or_eq_false_iff] at hab
   exact hab.1
 
-theorem block_regSorted {ops : List Op} (hw : WF ops) (obj : ObjId) {e : Op} (he : e ∈ rgaOrder ops obj) :
+theorem block_regSorted {ops : List Op} (hw : OpsWF ops) (obj : ObjId) {e : Op} (he : e ∈ rgaOrder ops obj) :
     RegSorted (block ops obj e) := by
   unfold RegSorted block
   refine List.Pairwise.cons ?_ ?_
@@ -89,7 +89,7 @@ theorem block_regSorted {ops : List Op} (hw : WF ops) (obj : ObjId) {e : Op} (he
   · unfold updatesOf
     exact List.Pairwise.imp (fun h _ _ => h) (sortById_strict (hw.strict.filter _))
 
-theorem seqSeg_regSorted {ops : List Op} (hw : WF ops) (obj : ObjId) : RegSorted (seqSeg ops obj) := by
+theorem seqSeg_regSorted {ops : List Op} (hw : OpsWF ops) (obj : ObjId) : RegSorted (seqSeg ops obj) := by
   unfold RegSorted seqSeg
   rw [List.pairwise_flatMap]
   refine ⟨fun e he => block_regSorted hw obj he, ?_⟩
@@ -110,7 +110,7 @@ theorem seqSeg_regSorted {ops : List Op} (hw : WF ops) (obj : ObjId) : RegSorted
   rw [hx', hy'] at hreg
   exact hne (Key.elem.inj hreg)
 
-theorem seg_regSorted {ops : List Op} (hw : WF ops) (obj : ObjId) : RegSorted (seg ops obj) := by
+theorem seg_regSorted {ops : List Op} (hw : OpsWF ops) (obj : ObjId) : RegSorted (seg ops obj) := by
   unfold RegSorted seg
   rw [List.pairwise_append]
   refine ⟨mapSeg_regSorted hw obj, seqSeg_regSorted hw obj, ?_⟩
@@ -121,7 +121,7 @@ theorem seg_regSorted {ops : List Op} (hw : WF ops) (obj : ObjId) : RegSorted (s
   have hma := (mem_mapSeg.mp ha).2.2.2
   rw [hreg, hbk] at hma; cases hma
 
-theorem seg_keySorted {ops : List Op} (hw : WF ops) (obj : ObjId) : KeySorted (seg ops obj) := by
+theorem seg_keySorted {ops : List Op} (hw : OpsWF ops) (obj : ObjId) : KeySorted (seg ops obj) := by
   unfold KeySorted seg
   rw [List.pairwise_append]
   refine ⟨mapSeg_keySorted ops obj, ?_, ?_⟩
@@ -148,10 +148,10 @@ theorem canon_pairwise {ops : List Op} {R : Op → Op → Prop}
   rw [obj_of_mem_seg hx, obj_of_mem_seg hy]
   exact hne
 
-theorem canon_regSorted {ops : List Op} (hw : WF ops) : RegSorted (canon ops) :=
+theorem canon_regSorted {ops : List Op} (hw : OpsWF ops) : RegSorted (canon ops) :=
   canon_pairwise (fun obj => seg_regSorted hw obj) (fun _ _ hne h => absurd h hne)
 
-theorem canon_keySorted {ops : List Op} (hw : WF ops) : KeySorted (canon ops) :=
+theorem canon_keySorted {ops : List Op} (hw : OpsWF ops) : KeySorted (canon ops) :=
   canon_pairwise (fun obj => seg_keySorted hw obj) (fun _ _ hne h => absurd h hne)
 
 /-! ## §2 visibility and values -/
@@ -307,7 +307,7 @@ theorem mem_canon_iff {ops : List Op} {s : Store} (hi : StoreInv ops s) {o : Op}
 
 /-- a register read: the visible value rows selected by `sel`, in store order, are the spec's
     sorted register -/
-theorem register_refines {ops : List Op} {s : Store} (hw : WF ops) (hi : StoreInv ops s)
+theorem register_refines {ops : List Op} {s : Store} (hw : OpsWF ops) (hi : StoreInv ops s)
     (sel : Op → Bool) (K : Key) (hK : ∀ o ∈ ops, sel o = true → o.regKey = K)
     (hobj : ∀ a b, sel a = true → sel b = true → a.obj = b.obj) :
     (s.filter (fun r => sel r.op && r.op.isValue && r.isVisible)).map rowEntry =
@@ -338,7 +338,7 @@ theorem register_refines {ops : List Op} {s : Store} (hw : WF ops) (hi : StoreIn
     · rintro ⟨h1, h2⟩; exact ⟨⟨h1, isDel_of_isValue (isValue_of_visible h2.2)⟩, h2⟩
 
 /-- **map registers** -/
-theorem storeMapRegister_eq {ops : List Op} {s : Store} (hw : WF ops) (hi : StoreInv ops s)
+theorem storeMapRegister_eq {ops : List Op} {s : Store} (hw : OpsWF ops) (hi : StoreInv ops s)
     (obj : ObjId) (k : Bytes) : storeMapRegister s obj k = mapRegister ops obj k := by
   unfold storeMapRegister mapRegister
   have := register_refines hw hi (fun o => o.obj == obj && o.key == .map k) (.map k)
@@ -373,7 +373,7 @@ theorem regKey_of_elem {o : Op} {e : OpId} (h : o.elem = some e) : o.regKey = .e
     · cases h
 
 /-- **element registers** -/
-theorem storeElemRegister_eq {ops : List Op} {s : Store} (hw : WF ops) (hi : StoreInv ops s)
+theorem storeElemRegister_eq {ops : List Op} {s : Store} (hw : OpsWF ops) (hi : StoreInv ops s)
     (obj : ObjId) (e : OpId) : storeElemRegister s obj e = elemRegister ops obj e := by
   unfold storeElemRegister elemRegister
   have := register_refines hw hi (fun o => o.obj == obj && o.elem == some e) (.elem e)
@@ -401,7 +401,7 @@ theorem flatMap_ite_single {α β : Type} [DecidableEq α] (x : α) (E : List β
     · have : x ≠ a := fun hh => hax hh.symm
       simp [hax, this]
 
-theorem filter_seg_insert {ops : List Op} (hw : WF ops) (obj a : ObjId) :
+theorem filter_seg_insert {ops : List Op} (hw : OpsWF ops) (obj a : ObjId) :
     (seg ops a).filter (fun o => o.obj == obj && o.insert) = if a = obj then rgaOrder ops obj else [] := by
   split
   · rename_i hao
@@ -434,7 +434,7 @@ theorem filter_seg_insert {ops : List Op} (hw : WF ops) (obj a : ObjId) :
 
 /-- **the RGA theorem for the store**: the physical order of the insert ops of a sequence object is
     the specification's depth-first order -/
-theorem storeSeqOrder_eq {ops : List Op} {s : Store} (hw : WF ops) (hi : StoreInv ops s) (obj : ObjId) :
+theorem storeSeqOrder_eq {ops : List Op} {s : Store} (hw : OpsWF ops) (hi : StoreInv ops s) (obj : ObjId) :
     storeSeqOrder s obj = rgaOrder ops obj := by
   unfold storeSeqOrder
   rw [filter_map_rows (Q := fun o => o.obj == obj && o.insert) (fun _ _ => rfl), hi.order]
@@ -451,7 +451,7 @@ theorem storeSeqOrder_eq {ops : List Op} {s : Store} (hw : WF ops) (hi : StoreIn
     · rfl
     · exact absurd (mem_objsOf.mpr ⟨x, hx, (hw.insSeq x hx hxi).2, ho⟩) hnm
 
-theorem storeSeqElems_eq {ops : List Op} {s : Store} (hw : WF ops) (hi : StoreInv ops s) (obj : ObjId) :
+theorem storeSeqElems_eq {ops : List Op} {s : Store} (hw : OpsWF ops) (hi : StoreInv ops s) (obj : ObjId) :
     storeSeqElems s obj = seqElems ops obj := by
   unfold storeSeqElems seqElems
   rw [storeSeqOrder_eq hw hi]
@@ -510,7 +510,7 @@ theorem mapKey?_eq_some {o : Op} {k : Bytes} : o.mapKey? = some k ↔ o.key = .m
   cases o.key <;> simp
 
 /-- **the keys of a map object** -/
-theorem storeMapKeys_eq {ops : List Op} {s : Store} (hw : WF ops) (hi : StoreInv ops s) (obj : ObjId) :
+theorem storeMapKeys_eq {ops : List Op} {s : Store} (hw : OpsWF ops) (hi : StoreInv ops s) (obj : ObjId) :
     storeMapKeys s obj = mapKeys ops obj := by
   unfold storeMapKeys
   rw [mapKeys_eq_keysOf]
@@ -554,7 +554,7 @@ theorem storeMapKeys_eq {ops : List Op} {s : Store} (hw : WF ops) (hi : StoreInv
 
 /-! ## §6 the rendered document -/
 
-theorem storeShowObj_eq {ops : List Op} {s : Store} (hw : WF ops) (hi : StoreInv ops s) :
+theorem storeShowObj_eq {ops : List Op} {s : Store} (hw : OpsWF ops) (hi : StoreInv ops s) :
     ∀ (fuel : Nat) (obj : ObjId) (ty : ObjType), storeShowObj s fuel obj ty = showObj ops fuel obj ty
   | 0, _, _ => rfl
   | fuel + 1, obj, ty => by
@@ -568,7 +568,7 @@ theorem storeShowObj_eq {ops : List Op} {s : Store} (hw : WF ops) (hi : StoreInv
     rfl
 
 /-- **the document read from the store is the specification's reading of the op set** -/
-theorem storeShowDoc_eq {ops : List Op} {s : Store} (hw : WF ops) (hi : StoreInv ops s) :
+theorem storeShowDoc_eq {ops : List Op} {s : Store} (hw : OpsWF ops) (hi : StoreInv ops s) :
     storeShowDoc s (ops.length + 1) = showDoc ops := by
   unfold storeShowDoc showDoc
   exact storeShowObj_eq hw hi _ _ _
